@@ -3,26 +3,50 @@
     [den] (a query tree; Model/Query.v's [eval] is its reference semantics).  Model/Parser.v: the parser.
     External engines are universally quantified ([rq] regexp classification, [rx_auto], [rcompile], [lang]). *)
 From ZV Require Import Lib.Base Model.Query Generated.ParserTables Model.Parser Model.QueryDoc Model.QueryDocRun.
-From ZV Require Import Proofs.QueryDocTree.
+From ZV Require Import Proofs.QueryDocTree Proofs.QueryDocParse.
 From Coq Require Import String.
 Open Scope N_scope.
 
-(** FULL STATEMENT (target):
-      forall q, wf_query q = true -> parse (render q) = Ok (Simplify (den q)).
-    PROVED below, for all well-formed abstract queries (unbounded nesting, any number of or-clauses,
-    negations, case:/type: directives at any position, every field and alias): the parser's expression
-    level - its atom table, the '-' check, parseExprList's case/type lifting with caseScopeQ protection,
-    parseOperators, stripCaseScopes, Simplify - run on the token structure of q ([iquery]) yields exactly
-    Simplify (den q).  NOT proved in Coq: the byte level, i.e. that nextToken/parseExpr on the printed
-    string [render q] reproduce that token structure (parse (render q) = iquery q); this part is checked by
-    the correspondence on every run (printer = harness printer, model parse = query.Parse, and
-    Simplify (den q) = query.Parse's tree, on >= 1400 random abstract queries). *)
-Theorem C06_parse_render_partial :
+(** THE PROPERTY: for every well-formed abstract query q of the documented grammar (unbounded nesting, any
+    number of or-clauses, negations, case:/type: directives at any position, every field and alias, quoted
+    and plain values) the parser, run on the BYTES of the printed query, returns exactly the simplified
+    documented meaning - for every behaviour of the external engines.
+    [wf_query] (Proofs/QueryDocTree.v) asks: values acceptable to the engine they are handed to; plain
+    (unquoted) values free of blanks, quotes, parentheses and backslashes; a bare plain pattern not empty,
+    not starting with '-', not "or", not starting with a field prefix; a bare quoted pattern not empty and
+    not a lone parenthesis; every conjunction has a non-directive member; no regex: field and no '-' in
+    front of case:/type: (see the refuted theorems / the C07 repair).  [render] prints a blank after '('. *)
+Theorem C06_parse_render :
+  forall (rq : str -> rqres) (rx_auto rcompile : str -> bool) (lang : str -> option str) (q : dquery),
+    wf_query rq rcompile q = true ->
+    parse rq rx_auto rcompile lang (render q) = Ok (Simplify (den (rq_d rq) rx_auto lang q)).
+Proof.
+  intros. rewrite Proofs.QueryDocParse.parse_render_iquery by assumption. apply iquery_den. assumption.
+Qed.
+Print Assumptions C06_parse_render.
+
+(** its two halves: the byte level (tokens, quoting/escapes, parenthesis and "or" recognition) ... *)
+Theorem C06_token_structure :
+  forall (rq : str -> rqres) (rx_auto rcompile : str -> bool) (lang : str -> option str) (q : dquery),
+    wf_query rq rcompile q = true ->
+    parse rq rx_auto rcompile lang (render q) = iquery rq rx_auto rcompile lang q.
+Proof. exact Proofs.QueryDocParse.parse_render_iquery. Qed.
+Print Assumptions C06_token_structure.
+
+(** ... and the expression level (atom table, '-' , case/type lifting with caseScopeQ protection,
+    parseOperators' or-precedence, stripCaseScopes, Simplify) *)
+Theorem C06_expression_level :
   forall (rq : str -> rqres) (rx_auto rcompile : str -> bool) (lang : str -> option str) (q : dquery),
     wf_query rq rcompile q = true ->
     iquery rq rx_auto rcompile lang q = Ok (Simplify (den (rq_d rq) rx_auto lang q)).
 Proof. exact iquery_den. Qed.
-Print Assumptions C06_parse_render_partial.
+Print Assumptions C06_expression_level.
+
+(** quoting: a quoted value is read back as its unescaped contents, whatever follows it *)
+Theorem C06_quoted_value_roundtrip :
+  forall (v rest : str), parseStringLiteral (34 :: esc v ++ 34 :: rest) = Ok (v, (2 + List.length (esc v))%nat).
+Proof. exact Proofs.QueryDocParse.psl_esc. Qed.
+Print Assumptions C06_quoted_value_roundtrip.
 
 (** an enclosing group's case: reaches exactly the nested groups that have no case: of their own
     (what parseExprList's repeated setCase passes and the caseScopeQ wrappers amount to) *)
